@@ -201,6 +201,10 @@ func runC18(env *Env) {
 		{"two throws at one catch event", []c18Proc{{executable: true, task: true, throws: true}, {executable: true, task: true, throws: true}, {executable: true, catches: true}},
 			[][2]string{{"H0", "C2"}, {"H1", "C2"}}, []string{"w", "t:T0", "w", "t:T1", "w", "t:B2", "W", "W"}, []string{"T0", "T1", "B2"},
 			func(d map[string]bool) bool { return !d["T0"] || !d["T1"] || !d["B2"] }, 3},
+		// two waiting processes instantiated by two throws, both alive at the same time: the set is complete only after both
+		{"two throws instantiate two waiting processes", []c18Proc{{executable: true, throws: true}, {executable: true, throws: true}, {msgStart: true, task: true}, {msgStart: true, task: true}},
+			[][2]string{{"H0", "s2"}, {"H1", "s3"}}, []string{"w", "t:T2", "w", "t:T3", "W", "W"}, []string{"T2", "T3"},
+			func(d map[string]bool) bool { return !d["T2"] || !d["T3"] }, 4},
 		// a throw event that no message flow leaves from: forwarded to the run loop all the same, acted on by nobody
 		{"throw linked to nothing", []c18Proc{{executable: true, task: true, throws: true}}, nil,
 			[]string{"w", "t:T0", "W", "W", "c"}, []string{"T0"},
